@@ -1,1 +1,38 @@
-From ZB Require Import Link.Rx Link.RxSpec.
+(* C02 - the receiver is total: no input or handler failure makes it raise or go deaf. *)
+From Coq Require Import NArith List.
+From ZB Require Import Base.Bytes Link.LinkSpec Link.LinkSpecProofs Link.Rx Link.RxSpec Link.RxProofs.
+Import ListNotations.
+Open Scope N_scope.
+
+(* the frame extractor never lets an exception other than InvalidFrame/BufferTooShort escape *)
+Theorem C02_extractor_never_raises : forall b, bytes_ok b -> extract_frame_x b <> XRaise.
+Proof. exact extract_never_raises. Qed.
+Print Assumptions C02_extractor_never_raises.
+
+(* in every protocol state (any buffer, any pack_seq, ACK event absent / clear / set, transport open
+   or closed), for every chunk sequence and handler: data_received does not raise *)
+Theorem C02_receive_never_raises : forall h st c cs, bytes_ok (rx_buf st) -> Forall bytes_ok (c :: cs) ->
+  snd (rx_run h st (c :: cs)) = false.
+Proof. exact rx_total. Qed.
+Print Assumptions C02_receive_never_raises.
+
+(* a failing handler changes nothing: same writes, same deliveries, same state *)
+Theorem C02_handler_failure_isolated : forall h1 h2 chunks st, rx_run h1 st chunks = rx_run h2 st chunks.
+Proof. exact rx_handler_irrelevant. Qed.
+Print Assumptions C02_handler_failure_isolated.
+
+(* never deaf: from ANY state and after ANY input, a quiet gap (65537 zero bytes: longer than any
+   declared extent) followed by a well-formed data frame gets that frame handed up *)
+Theorem C02_never_deaf : forall h st c cs w, bytes_ok (rx_buf st) -> Forall bytes_ok (c :: cs) -> wf w -> w_ack w = false ->
+  In (ODeliver w) (snd (fst (rx_run h st (c :: cs ++ [repeat 0 GAP ++ spec_encode w])))).
+Proof. exact rx_never_deaf. Qed.
+Print Assumptions C02_never_deaf.
+
+(* and without a gap, whenever the frame does not start inside an earlier declared extent *)
+Theorem C02_delivered_outside_claimed_extents : forall h st c cs i w rest, bytes_ok (rx_buf st) -> Forall bytes_ok (c :: cs) ->
+  let s := rx_buf st ++ concat (c :: cs) in
+  spec_decode (skipn i s) = Some (w, rest) -> w_ack w = false ->
+  (forall p sz fl, (p < i)%nat -> claims (skipn p s) = Some (sz, fl) -> N.of_nat p + 2 + sz <= N.of_nat i) ->
+  In (ODeliver w) (snd (fst (rx_run h st (c :: cs)))).
+Proof. exact rx_prompt. Qed.
+Print Assumptions C02_delivered_outside_claimed_extents.
